@@ -286,6 +286,31 @@ func c04Oracle1(in c04In) probe.Outcome {
 	if len(v0) > 400*len(in.B)+200000 {
 		return probe.Fail("%s: decoded value of %d JSON octets from %d input octets", in.Entry, len(v0), len(in.B))
 	}
+	// composition inside SK: a datagram that an independent receiver holding the keys verifies and decrypts gives, unprotected
+	// by the library, what the plain chain decoder gives for the decrypted inner chain - the same payloads, or an error if that
+	// one reports an error (not a part of the chain, not a guess)
+	if in.Entry == "unprotect" && in.Keys != nil && !probe.IsPanic(e0) {
+		if o, oerr := ref.Open(in.Suite.Ref(), in.Keys.Dir(!in.RecvInitiator), in.B); oerr == nil {
+			var c message.IKEPayloadContainer
+			cerr := probe.Try(func() error { return c.Decode(o.FirstInner, probe.Exact(o.Inner)) })
+			if !probe.IsPanic(cerr) {
+				if (cerr == nil) != (e0 == nil) {
+					return probe.Fail("unprotect: an authentic datagram whose decrypted inner chain (first type %d, %d octets) the plain chain decoder answers with (%v) is answered with (%v) by DecodeDecrypt", o.FirstInner, len(o.Inner), cerr, e0)
+				}
+				if cerr == nil {
+					if ps, perr := bridge.FromLibPayloads(c); perr == nil {
+						want := string(model.JSON(model.Message{Payloads: ps}.Normalize().Payloads))
+						var got struct {
+							Payloads json.RawMessage `json:"payloads"`
+						}
+						if json.Unmarshal([]byte(v0), &got) == nil && len(got.Payloads) > 0 && string(got.Payloads) != want && !(want == "null" && string(got.Payloads) == "[]") {
+							return probe.Fail("unprotect: the payloads of an authentic datagram differ from what the plain chain decoder gives for its decrypted inner chain:\n unprotect: %s\n chain:     %s", model.Clip(got.Payloads), model.Clip([]byte(want)))
+						}
+					}
+				}
+			}
+		}
+	}
 	// composition: the whole-message result is the list of the per-payload results
 	if in.Entry == "message" && len(in.B) >= 28 {
 		if o := c04Composition(in, v0, e0); o != nil {
